@@ -74,3 +74,154 @@ def c13(mode, x, again):
         if n2 != 2 * n1 or n1 != 1:
             return "failed task: bodies executed %d then %d (a later submission must execute it again)" % (n1, n2)
     return None
+
+
+# ------------------------------------------------------------------ C11
+ENTRY_STATES = ["absent", "empty_dir", "job_record_only", "zero_byte_result", "partial_result", "errored_result", "complete_result"]
+_TEMPLATES = {}
+
+
+def _templates(x):
+    """complete and errored cache entries of Flaky(x), produced once per process by real runs"""
+    if x in _TEMPLATES:
+        return _TEMPLATES[x]
+    from crosshair.tracers import NoTracing
+    with NoTracing():
+        base = os.path.join(E._BASE, "templates_%d" % x)
+        shutil.rmtree(base, ignore_errors=True)
+        os.makedirs(base + "/ok")
+        os.makedirs(base + "/err")
+        t = D.Flaky(x=x, tag=3)
+        R.FLAGS["fail"] = False
+        t(cache_root=base + "/ok", worker="debug")
+        R.FLAGS["fail"] = True
+        try:
+            D.Flaky(x=x, tag=3)(cache_root=base + "/err", worker="debug")
+        except Exception:
+            pass
+        R.FLAGS["fail"] = False
+        cs = t._checksum
+        _TEMPLATES[x] = (cs, os.path.join(base, "ok", cs), os.path.join(base, "err", cs))
+    return _TEMPLATES[x]
+
+
+def make_entry(root, state, x):
+    """put the cache entry for Flaky(x, tag=3) in `root` into the given pre-state"""
+    cs, ok, err = _templates(x)
+    dst = os.path.join(root, cs)
+    name = ENTRY_STATES[state]
+    if name == "absent":
+        return
+    if name == "empty_dir":
+        os.makedirs(dst)
+    elif name == "job_record_only":
+        os.makedirs(dst)
+        shutil.copy(os.path.join(ok, "_job.pklz"), dst)
+    elif name in ("zero_byte_result", "partial_result"):
+        shutil.copytree(ok, dst)
+        data = open(os.path.join(ok, "_result.pklz"), "rb").read()
+        with open(os.path.join(dst, "_result.pklz"), "wb") as f:
+            f.write(b"" if name == "zero_byte_result" else data[: len(data) // 2])
+    elif name == "errored_result":
+        shutil.copytree(err, dst)
+    elif name == "complete_result":
+        shutil.copytree(ok, dst)
+
+
+def tree_digest(root):
+    out = []
+    for dp, dn, fn in os.walk(root):
+        for f in sorted(fn):
+            p = os.path.join(dp, f)
+            st = os.stat(p)
+            out.append((os.path.relpath(p, root), st.st_size, st.st_mtime_ns))
+        dn.sort()
+    return out
+
+
+def c11(states, n_ro, rerun, x):
+    """one submission of Flaky(x) from an arbitrary pre-state of cache_root + n_ro read-only caches"""
+    E.reset()
+    _templates(x)
+    R.clear()
+    R.FLAGS["fail"] = False
+    from crosshair.tracers import NoTracing
+    base = E.scratch()
+    roots = [os.path.join(base, n) for n in ("root", "ro1", "ro2")][: 1 + n_ro]
+    try:
+        with NoTracing():
+            for r, s in zip(roots, states):
+                os.makedirs(r)
+                make_entry(r, s, x)
+            before = [tree_digest(r) for r in roots[1:]]
+            others = set(os.listdir(base))
+        t = D.Flaky(x=x, tag=3)
+        out, err = call(t, cache_root=roots[0], readonly_caches=roots[1:], rerun=rerun)
+        n = len(bodies("Flaky"))
+        with NoTracing():
+            after = [tree_digest(r) for r in roots[1:]]
+            new_outside = set(os.listdir(base)) - others
+            res_root = load(roots[0], t._checksum)
+    finally:
+        E.cleanup(base)
+    T.reach()
+    names = [ENTRY_STATES[s] for s in states[: 1 + n_ro]]
+    desc = "pre-state %s rerun=%s" % (dict(zip(["cache_root", "ro1", "ro2"], names)), rerun)
+    if err is not None:
+        return "%s: submission failed: %r" % (desc, err)
+    if out.out != x * 10 + 3:
+        return "%s: returned %r instead of %r" % (desc, out.out, x * 10 + 3)
+    complete_any = "complete_result" in names
+    want = 1 if (rerun or not complete_any) else 0
+    if n != want:
+        return "%s: task body executed %d time(s), expected %d" % (desc, n, want)
+    if before != after:
+        return "%s: a read-only cache was modified" % desc
+    if new_outside:
+        return "%s: files written outside the cache root: %s" % (desc, sorted(new_outside))
+    if n == 1 and (res_root is None or res_root.errored):
+        return "%s: after executing, the cache root holds no complete result" % desc
+    return None
+
+
+def c11_history(reruns, propagate, fail_first):
+    """explicit history of three submissions of a two-node workflow into one cache root"""
+    E.reset()
+    R.clear()
+    d = E.scratch()
+    counts, outs = [], []
+    try:
+        from pydra.engine.submitter import Submitter
+        for k, rr in enumerate(reruns):
+            R.FLAGS["fail"] = bool(fail_first and k == 0)
+            before = len(bodies("Flaky"))
+            try:
+                with Submitter(cache_root=d, worker="debug", propagate_rerun=propagate) as sub:
+                    res = sub(D.FlakyWf(x=1), rerun=rr)
+                outs.append(None if res.errored else res.outputs.out)
+            except Exception as e:
+                outs.append(e)
+            counts.append(len(bodies("Flaky")) - before)
+    finally:
+        R.FLAGS["fail"] = False
+        E.cleanup(d)
+    T.reach()
+    done = False        # a successful result of the whole workflow is cached
+    for k, rr in enumerate(reruns):
+        failing = bool(fail_first and k == 0)
+        if failing:
+            want = 1                         # node a fails, b never runs
+        elif not done:
+            want = 2
+        elif rr and propagate:
+            want = 2
+        else:
+            want = 0                          # rerun without propagation re-executes only the workflow itself
+        if counts[k] != want:
+            return "history reruns=%s propagate=%s fail_first=%s: submission %d executed %d node bodies, expected %d (all: %s)" % (
+                reruns, propagate, fail_first, k, counts[k], want, counts)
+        if not failing:
+            if outs[k] != 112:
+                return "submission %d returned %r" % (k, outs[k])
+            done = True
+    return None
